@@ -41,7 +41,7 @@ type job struct {
 }
 
 func main() {
-	c := mon.Init("C17D")
+	c := mon.Init("C17")
 	var jobs []job
 	if *flagMode == "fri" || *flagMode == "all" {
 		jobs = append(jobs, friJobs(c)...)
